@@ -284,3 +284,16 @@ Lemma stale_move_refuted :
   spec_b (uidstore1_sched s 1 SAdd [JUNK] 1 [] c034_env false) = true /\
   spec_b (uidstore1_sched_stale s 1 SAdd [JUNK] 1 [] c034_env) = false.
 Proof. vm_compute. repeat split. Qed.
+
+(** regression (seeded change C08-5): RENAME INBOX x that reads INBOX's uid_next
+    up front and writes it into the target later is refuted by ONE delivery to
+    INBOX between the creation of the target row and the transaction; the tree's
+    order (counter copied inside the transaction) passes the same schedule *)
+Definition c085_env : list op := [ODeliver INBOX 0].
+Lemma stale_rename_inbox_refuted :
+  let s := run sched2_prep (init 100) in
+  clean s c085_env = true /\
+  spec_b (fst (rename_inbox_sched s (S_ "R1") 200 c085_env)) = true /\
+  spec_b (fst (rename_inbox_sched_stale s (S_ "R1") 200 c085_env)) = false.
+Proof. vm_compute. repeat split. Qed.
+
